@@ -764,6 +764,12 @@ impl Xot {
         if first_child.is_none() {
             return self.remove(node);
         }
+        // the children take the place of the element, so it needs to be in a place
+        if self.parent(node).is_none() {
+            return Err(Error::InvalidOperation(
+                "Cannot unwrap an element without a parent".to_string(),
+            ));
+        }
         let first_child = first_child.unwrap();
         // there is guaranteed to be a last child if there's a first child
         let last_child = self.last_child(node).unwrap();
